@@ -67,13 +67,14 @@ type c19Msg struct {
 }
 
 type c19Case struct {
-	mllama bool
-	proj   int // 0 nil, 1 empty non-nil, 2 non-empty
-	limit  int
-	style  int    // 0-3 harness templates, 4.. shipped templates, -1 generated (src)
-	src    string // template source when style < 0
-	mode   int    // tokenizer: 0 fields, 1 bytes
-	msgs   []c19Msg
+	mllama  bool
+	proj    int // 0 nil, 1 empty non-nil, 2 non-empty
+	limit   int
+	style   int    // 0-3 harness templates, 4.. shipped templates, -1 generated (src)
+	src     string // template source when style < 0
+	mode    int    // tokenizer: 0 fields, 1 bytes
+	tokFail int    // 1 + the index i whose measurement makes the tokenizer fail (0: never); carried by the cost vector as K
+	msgs    []c19Msg
 
 	tm  *template.Template // parsed lazily
 	ast string             // serialised parse tree ("X" = outside the modelled subset)
@@ -266,7 +267,11 @@ func (e *c19Env) costs(c *c19Case) []int {
 			}
 		}
 		in = append(in, msgs[i:]...)
-		out = append(out, c19Measure(tm, c.mode, in))
+		x := c19Measure(tm, c.mode, in)
+		if c.tokFail > 0 && i == c.tokFail-1 && x >= 0 {
+			x = -3
+		}
+		out = append(out, x)
 	}
 	return out
 }
@@ -300,6 +305,10 @@ func (e *c19Env) runReal(c *c19Case) (r c19Real) {
 	r.msgs = e.apiMsgs(c)
 	tok := func(_ context.Context, s string) ([]int, error) {
 		r.calls++
+		// call number k measures index L-1-k
+		if c.tokFail > 0 && len(c.msgs)-1-r.calls == c.tokFail-1 {
+			return nil, errors.New("c19: tokenizer failure")
+		}
 		return make([]int, c19Tokens(c.mode, s)), nil
 	}
 	opts := api.Options{Runner: api.Runner{NumCtx: c.limit}}
@@ -343,6 +352,8 @@ func (c *c19Case) opLine(fixed int, costs []int) string {
 			sb.WriteString(" E")
 		case -2:
 			sb.WriteString(" P")
+		case -3:
+			sb.WriteString(" K")
 		default:
 			fmt.Fprintf(&sb, " %d", x)
 		}
@@ -428,6 +439,14 @@ func c19ParseLine(line string) (*c19Case, error) {
 			}
 			c.msgs = append(c.msgs, m)
 		}
+		// the cost vector is re-measured; only the injected tokenizer failure is part of the case
+		if p < len(f) {
+			for i, k := 0, num(); i < k; i++ {
+				if next() == "K" {
+					c.tokFail = i + 1
+				}
+			}
+		}
 	}()
 	return c, perr
 }
@@ -468,6 +487,8 @@ func (e *c19Env) implLine(c *c19Case, r *c19Real) string {
 			return "err:preprocess"
 		case strings.HasPrefix(r.err.Error(), "template:"):
 			return "err:template"
+		case r.err.Error() == "c19: tokenizer failure":
+			return "err:tokenize"
 		}
 		return "err:other:" + strings.ReplaceAll(r.err.Error(), " ", "_")
 	}
@@ -987,6 +1008,9 @@ func (e *c19Env) runCase(out *zzverif.Out, c *c19Case) {
 		out.Count("outcome_panic")
 	case r.err != nil:
 		out.Count("outcome_err")
+		if r.err.Error() == "c19: tokenizer failure" {
+			out.Count("outcome_err_tokenizer_injected")
+		}
 	default:
 		out.Count("outcome_ok")
 		if len(r.images) > 0 {
@@ -1061,6 +1085,9 @@ func TestVerifC19(t *testing.T) {
 	for i := 0; i < n; i++ {
 		r := root.Fork()
 		c := c19Gen(r)
+		if len(c.msgs) >= 2 && r.Chance(1, 40) {
+			c.tokFail = 1 + r.Intn(len(c.msgs)-1)
+		}
 		c.limit = e.pickLimit(r, c, e.costs(c))
 		e.runCase(out, c)
 	}
